@@ -140,7 +140,7 @@ def check_rules(facts, rep):
     ok &= rep.check(good, rule, "check-byte", where(v, v.span), "byte 11 compared with crc32 >> 24 (PKZIP) resp. time >> 8 (Info-ZIP); nothing else is compared",
                     "header check compares %s; the traditional scheme checks only header byte 11 against the high byte of the CRC (or of the DOS time when bit 3 is set)" % seen)
     ps = paths(v, max_loop=1)
-    mism = [p for p in ps if any(re.search(r"^Ne\(", a) and val == 1 for a, val in p["decisions"])]
+    mism = [p for p in ps if any((re.search(r"^Ne\(", a) and val == 1) or (re.search(r"^Eq\(", a) and val == 0) for a, val in p["decisions"])]
     good = bool(mism) and all(outcome(p)[0] == "Ok" and outcome(p)[1][0] == "agg" and outcome(p)[1][1] == "adt:None" for p in mism)
     ok &= rep.check(good, rule, "mismatch=>None", where(v, v.span), "check byte mismatch => Ok(None) (wrong password)", "a check byte mismatch is not reported as Ok(None)")
     return ok
